@@ -9,7 +9,8 @@ HOSTILE_NAMES = ["sp ace.txt", "pct%41.txt", "q?mark.txt", "pipe|bar.txt", "hash
                  "dollar$.txt", "back\\slash.txt", "pct%zz.txt", "%2e%2e.txt", "a b  c.txt", "UPPER.TXT", "x.tar.gz"]
 
 
-def rich_tree(rng, hostile=True, n_hostile=8, umn=True, mtime=1_700_000_000):
+def rich_tree(rng, hostile=True, n_hostile=8, umn=True, mtime=1_700_000_000, part=None):
+    """part=(i, n): take every n-th hostile name starting at i (so that n trees cover all names)"""
     """latin-1 path strings stand for raw bytes."""
     t = [
         {"path": "a.txt", "data": "alpha\n"},
@@ -50,9 +51,27 @@ def rich_tree(rng, hostile=True, n_hostile=8, umn=True, mtime=1_700_000_000):
         ]
     if hostile:
         names = list(HOSTILE_NAMES)
-        rng.shuffle(names)
+        if part is not None:
+            names = names[part[0]::part[1]]
+        else:
+            rng.shuffle(names)
+            names = names[:n_hostile]
         t.append({"path": "odd", "kind": "dir"})
-        for nm in names[:n_hostile]:
+        # mailboxes and Maildirs whose own names contain the virtual-argument separators
+        t.append({"path": "odd/why?.mbox", "data": MBOX})
+        t.append({"path": "odd/ann|2019.mbox", "data": MBOX})
+        t.append({"path": "odd/m|d", "kind": "dir"})
+        t.append({"path": "odd/m|d/new", "kind": "dir"})
+        t.append({"path": "odd/m|d/cur", "kind": "dir"})
+        t.append({"path": "odd/m|d/new/1.msg", "data": "Subject: piped\n\nx\n"})
+        # a gophermap that links (relative and absolute) to names with non-UTF-8 and reserved bytes
+        t.append({"path": "odd/gm", "kind": "dir"})
+        t.append({"path": "odd/gm/caf\xe9.txt", "data": "latin1 name\n"})
+        t.append({"path": "odd/gm/sp ace?.txt", "data": "space and qmark\n"})
+        t.append({"path": "odd/gm/gophermap", "data": "0latin\tcaf\xe9.txt\n0abs latin\t/odd/gm/caf\xe9.txt\n0spaced\tsp ace?.txt\n"
+                                                     "1up\t/odd\n0pct\t/odd/pct%41.txt\n"})
+        t.append({"path": "odd/pct%41.txt", "data": "content of pct%41.txt\n"})
+        for nm in names:
             t.append({"path": "odd/" + nm, "data": "content of " + nm + "\n"})
         t.append({"path": "odd/dir with space", "kind": "dir"})
         t.append({"path": "odd/dir with space/in&side.txt", "data": "inside\n"})
